@@ -2,6 +2,7 @@ package props
 
 import (
 	"bytes"
+	"encoding/json"
 	"fmt"
 	"os"
 	"path/filepath"
@@ -278,8 +279,10 @@ func c09DrawModes(t *rapid.T, h *proc.Home) string {
 	return fmt.Sprintf("%04o", m)
 }
 
+// loadHist reads a history file for the oracle. The entries are decoded by the harness itself; the
+// real loader is run on a scratch copy, so that whatever it does to the file it is given cannot
+// change the state under examination, and its verdict ("loads" / "does not load") is reported.
 func loadHist(p string) ([]history.SearchEntry, error) {
-	sh := history.NewSearchHistory(p, 100)
 	if _, err := os.Stat(p); err != nil {
 		return nil, nil
 	}
@@ -287,10 +290,25 @@ func loadHist(p string) ([]history.SearchEntry, error) {
 	if len(b) == 0 {
 		return nil, nil // an empty file reads as an empty history
 	}
+	scratch := gen.TempPath(".json")
+	defer os.Remove(scratch)
+	if err := os.WriteFile(scratch, b, 0o644); err != nil {
+		return nil, fmt.Errorf("harness: %v", err)
+	}
+	sh := history.NewSearchHistory(scratch, 100)
 	if err := sh.Load(); err != nil {
 		return nil, err
 	}
-	return sh.Entries, nil
+	var doc struct {
+		Entries []history.SearchEntry `json:"entries"`
+	}
+	if err := json.Unmarshal(b, &doc); err != nil {
+		return nil, fmt.Errorf("the loader accepts the file, a plain JSON decode does not: %v", err)
+	}
+	if len(doc.Entries) != len(sh.Entries) {
+		return nil, fmt.Errorf("the loader reads %d entries, the file holds %d", len(sh.Entries), len(doc.Entries))
+	}
+	return doc.Entries, nil
 }
 
 func TestC09_History(t *testing.T) {
@@ -311,6 +329,10 @@ func TestC09_History(t *testing.T) {
 		os.WriteFile(dbp, gen.EmitYAML(c08Main), 0o644)
 		queries := []string{"list", "compress directory", "disk", "zzqx nothing", "running processes"}
 		nOld := rapid.IntRange(0, 3).Draw(t, "old-searches")
+		wantForeign := rapid.IntRange(0, 2).Draw(t, "foreign-file") == 0
+		if wantForeign && nOld < 2 {
+			nOld = 3
+		}
 		if rapid.IntRange(0, 2).Draw(t, "full-history") == 0 {
 			// a history at (or one below) its 100-entry bound, so that recording also trims
 			n := rapid.SampledFrom([]int{100, 99, 100}).Draw(t, "full-n")
@@ -330,10 +352,33 @@ func TestC09_History(t *testing.T) {
 		if err != nil {
 			t.Fatalf("harness: old history does not load: %v", err)
 		}
+		foreign := ""
+		if b := readOrNil(base.History()); len(b) > 0 && wantForeign {
+			// a history written by another version or edited by hand: same entries, but the size
+			// limit recorded in the file is missing, zero or negative (read as the default)
+			var doc map[string]json.RawMessage
+			if json.Unmarshal(b, &doc) == nil {
+				foreign = rapid.SampledFrom([]string{"0", "-1", "absent", "null"}).Draw(t, "foreign-max-size")
+				if foreign == "absent" {
+					delete(doc, "max_size")
+				} else {
+					doc["max_size"] = json.RawMessage(foreign)
+				}
+				nb, _ := json.MarshalIndent(doc, "", "  ")
+				os.WriteFile(base.History(), nb, 0o644)
+				again, err := loadHist(base.History())
+				if err != nil || len(again) != len(oldEntries) {
+					t.Fatalf("harness: history with max_size %s no longer loads its %d entries: %v", foreign, len(oldEntries), err)
+				}
+			}
+		}
 		fileMode := c09DrawModes(t, base)
 		symlinked := rapid.IntRange(0, 4).Draw(t, "symlinked") == 0
 		if symlinked {
 			fileMode += "+symlink"
+		}
+		if foreign != "" {
+			fileMode += "+max_size:" + foreign
 		}
 		oldBytes := readOrNil(base.History())
 		q := rapid.SampledFrom(queries).Draw(t, "q")
